@@ -17,7 +17,7 @@ RULE = ("trees whose input directory holds every subset (size 2-4) of four sibli
         "output at all for an excluded input.  non-trivial = >=1 entry excluded and >=1 processed; distinct by (tree, "
         "patterns, schedule)")
 
-FILES = ["e1.cmake", "e2.cmake", "k.cmake", "e3.cmake"]
+FILES = ["e1.cmake", "e2.cmake", "k.cmake", "e3.CMake"]     # one CMake file with a mixed-case extension
 DIRS = ["x1", "x2", "y", "x3"]
 
 
@@ -84,7 +84,9 @@ def ref_match(pattern, abspath, isdir):
 def pattern_forms():
     return ["k.cmake", "e1.cmake", "y", "x1/", "e*.cmake", "x*/", "*.cmake", "**/deep/", "deep", "ABSF:e2.cmake",
             "ABSF:x1/m.cmake", "ABSD:x2/", "ABSD:y/deep/", "m.cmake", "INPUT/", "in", "ANCESTOR/", "ABSGLOB:i*/k.cmake",
-            "ABSGLOB:*/x2/", "in/", "i*/", "**/in/"]
+            "ABSGLOB:*/x2/", "in/", "i*/", "**/in/",
+            # directory-only patterns that would also match file names; patterns for the mixed-case extension
+            "e*/", "k.cmake/", "e3.CMake", "e[0-9].*", "*.CMake"]
 
 
 def resolve(p, boxroot):
